@@ -242,3 +242,104 @@ class SimulatedGroup(contextlib.AbstractContextManager):
 
 def permutations_upto(n):
     return list(itertools.permutations(range(n)))
+
+
+# ---------------------------------------------------------------------------------------
+LISTING_POLICIES = ("sorted", "reversed", "rotate-left", "rotate-right", "swap-first-two", "swap-last-two")
+
+
+def _apply_listing_policy(names, policy):
+    s = sorted(names)
+    n = len(s)
+    if n < 2 or policy == "sorted":
+        return s
+    if policy == "reversed":
+        return s[::-1]
+    if policy == "rotate-left":
+        return s[1:] + s[:1]
+    if policy == "rotate-right":
+        return s[-1:] + s[:-1]
+    if policy == "swap-first-two":
+        return [s[1], s[0]] + s[2:]
+    if policy == "swap-last-two":
+        return s[:-2] + [s[-1], s[-2]]
+    raise ValueError(policy)
+
+
+class ListingPolicy(contextlib.AbstractContextManager):
+    """The order in which the operating system lists a directory is an environment answer.  Within the
+    context, ``os.listdir`` / ``os.scandir`` (and so ``os.walk``, ``glob``, ``pathlib.iterdir``) return the
+    entries of every directory below ``root`` in the order fixed by ``policy`` (a rule applied to the sorted
+    names, the same for every call - an unchanged directory is listed the same way twice).  The six policies
+    produce EVERY permutation of a directory with <= 3 entries and six distinct orders of larger ones.
+    Paths outside ``root`` are untouched."""
+
+    def __init__(self, policy, root="/dev/shm/verif-"):
+        assert policy in LISTING_POLICIES
+        self.policy, self.root = policy, root
+        self.calls = 0
+
+    def _mine(self, path):
+        import os
+
+        try:
+            p = os.path.abspath(os.fspath(path if path is not None else "."))
+        except TypeError:
+            return False
+        if isinstance(p, bytes):
+            return False
+        return p.startswith(self.root)
+
+    def __enter__(self):
+        import os
+
+        self._saved = (os.listdir, os.scandir)
+        real_listdir, real_scandir = self._saved
+        outer = self
+
+        def listdir(path="."):
+            names = real_listdir(path)
+            if not outer._mine(path):
+                return names
+            outer.calls += 1
+            return _apply_listing_policy(names, outer.policy)
+
+        class _Scan:
+            def __init__(self, path):
+                with real_scandir(path) as it:
+                    ents = {e.name: e for e in it}
+                outer.calls += 1
+                self._ents = [ents[k] for k in _apply_listing_policy(list(ents), outer.policy)]
+                self._i = 0
+
+            def __iter__(self):
+                return self
+
+            def __next__(self):
+                if self._i >= len(self._ents):
+                    raise StopIteration
+                self._i += 1
+                return self._ents[self._i - 1]
+
+            def __enter__(self):
+                return self
+
+            def __exit__(self, *exc):
+                return False
+
+            def close(self):
+                pass
+
+        def scandir(path="."):
+            if not outer._mine(path):
+                return real_scandir(path)
+            return _Scan(path)
+
+        os.listdir, os.scandir = listdir, scandir
+        return self
+
+    def __exit__(self, *exc):
+        import os
+
+        os.listdir, os.scandir = self._saved
+        return False
